@@ -23,7 +23,32 @@ KINDS = {
     "VO": ("VObj", "widget"), "VS": ("VSub", "widget"), "MB": ("QMenuBar", "widget"),
     # classes that merely derive from the specially treated ones (fixtures/vtypes.json)
     "VM": ("VMenu", "menu"), "VA": ("VAction", "action"), "VT": ("VTabs", "widget"), "VX": ("VBox", "layout"),
+    # QML components lying beside the document (COMPONENT_FILES): instances are objects like any other
+    "CP": ("Panel", "widget"), "CM": ("MenuComp", "menu"), "CG": ("GroupComp", "widget"),
 }
+COMPONENT_FILES = {"Panel.qml": "import qmluic.QtWidgets\nQWidget { }\n", "MenuComp.qml": "import qmluic.QtWidgets\nQMenu { }\n",
+                   "GroupComp.qml": "import qmluic.QtWidgets\nQGroupBox { title: \"g\" }\n"}
+COMPONENT_DIR = [None]
+
+
+def uses_component(shape):
+    return shape[0] in ("CP", "CM", "CG") or any(uses_component(k) for k in shape[1])
+
+
+def component_dir():
+    """Per-process scratch directory holding the component files (removed at exit)."""
+    if COMPONENT_DIR[0] is None:
+        import atexit
+        import shutil
+        import tempfile
+        import os
+        d = tempfile.mkdtemp(prefix="verif-c11-", dir=os.environ.get("VERIF_SCRATCH", tempfile.gettempdir()))
+        for fn, text in COMPONENT_FILES.items():
+            with open(os.path.join(d, fn), "w") as f:
+                f.write(text)
+        atexit.register(shutil.rmtree, d, True)
+        COMPONENT_DIR[0] = d
+    return COMPONENT_DIR[0]
 WIDGETISH = ("widget", "menu")
 
 
@@ -198,8 +223,21 @@ def shapes_deep():
             yield shape
 
 
+def shapes_components():
+    """Instances of QML components with children of every kind (alone and in pairs), as children and as root."""
+    for comp in ("CP", "CM", "CG"):
+        for x in FULL:
+            yield ("W", [(comp, [(x, [])])])
+            yield ("W", [(comp, [(x, []), ("AC", [])]), ("LB", [])])
+            yield (comp, [(x, [])])
+        for x, y in itertools.product(["W", "VB", "AC", "SEP", "MN", "LB", "CP"], repeat=2):
+            yield ("W", [(comp, [(x, []), (y, [])])])
+        yield ("W", [(comp, [("VB", [("LB", []), ("CP", [("LB", [])])])])])
+
+
 def all_shapes(tier):
     yield from shapes_depth2(FULL, 3)
+    yield from shapes_components()
     yield from shapes_childless()
     yield from shapes_deep()
     # menu bars and tool bars with menu-like children (plain and derived)
@@ -282,6 +320,10 @@ def shard_work(shard, nshards, payload):
         if j % nshards != shard:
             continue
         judge_actions(t, vd, j, parent, trio, perm)
+    if COMPONENT_DIR[0] is not None:
+        import shutil
+        shutil.rmtree(COMPONENT_DIR[0], ignore_errors=True)     # pool workers do not run atexit handlers
+        COMPONENT_DIR[0] = None
     return t
 
 
@@ -297,7 +339,14 @@ def judge_shape(t, vd, i, shape):
     if True:
         root = build_tree(shape)
         src = qml.render(root, oneline=True)
-        r = vd.job({"id": i, "source": src, "modes": ["generate"]})
+        if uses_component(shape):
+            import os
+            path = os.path.join(component_dir(), "Main.qml")
+            with open(path, "w") as f:
+                f.write(src)
+            r = vd.job({"id": i, "path": path, "modes": ["generate"]})
+        else:
+            r = vd.job({"id": i, "source": src, "modes": ["generate"]})
         x = judge_tree(t, f"tree/{i}", shape, src, r)
         if x is None:
             return
